@@ -1,0 +1,63 @@
+//go:build verif
+
+package candler
+
+import "time"
+
+// Contracts for package contrib/candler (C21), checked by /verif/govc. Compiled only with -tags=verif.
+
+func verifAssert(bool) {}
+
+//@ import utils @/utils
+
+// cdWithin(cd, ts, start): timestamp ts (abs ns) lies in the window of candle duration cd that starts at start
+//@ ghost func cdWithin(cd int, ts int, tsloc int, start int) bool
+
+//@ func (*@/utils.CandleDuration).IsWithin
+//@ trusted "window membership (C31 covers it); abstracted by cdWithin for the candle contracts"
+//@ pure
+//@ ensures result == cdWithin(cd, abs(ts), loc(ts), abs(start))
+
+// One accepted row updates the candle exactly like one step of the OHLC fold: the first row sets all four prices;
+// later rows raise High / lower Low, and replace Open (Close) only when they are strictly earlier (later) than every
+// row seen so far. A row outside the window changes nothing. By induction over the rows this gives: Open/Close are
+// the prices of an earliest/latest row, High/Low the extremes (the induction itself is not machine-checked).
+//@ func (*Candle).IsWithin
+//@ inline
+
+//@ func (*Candle).AddCandle
+//@ props C21 C22
+//@ requires #prices: len(prices) == 1 || len(prices) == 4
+//@ ensures #within: result == cdWithin(ca.Duration, abs(ts), loc(ts), abs(old(ca.StartTime)))
+//@ ensures #rejectedUnchanged: !result ==> (ca.EOHLC == old(ca.EOHLC) && ca.OpenTime == old(ca.OpenTime) && ca.CloseTime == old(ca.CloseTime))
+//@ ensures #first: (result && old(abs(ca.OpenTime)) == 0 - 62135596800000000000) ==> (ca.EOHLC.Open == prices[0] && ca.EOHLC.Close == ite(len(prices) == 1, prices[0], prices[3]) && ca.EOHLC.High == ite(len(prices) == 1, prices[0], prices[1]) && ca.EOHLC.Low == ite(len(prices) == 1, prices[0], prices[2]) && abs(ca.OpenTime) == abs(ts) && abs(ca.CloseTime) == abs(ts))
+//@ ensures #high: (result && old(abs(ca.OpenTime)) != 0 - 62135596800000000000) ==> ca.EOHLC.High == ite(ite(len(prices) == 1, prices[0], prices[1]) > old(ca.EOHLC.High), ite(len(prices) == 1, prices[0], prices[1]), old(ca.EOHLC.High))
+//@ ensures #low: (result && old(abs(ca.OpenTime)) != 0 - 62135596800000000000) ==> ca.EOHLC.Low == ite(ite(len(prices) == 1, prices[0], prices[2]) < old(ca.EOHLC.Low), ite(len(prices) == 1, prices[0], prices[2]), old(ca.EOHLC.Low))
+//@ ensures #open: (result && old(abs(ca.OpenTime)) != 0 - 62135596800000000000) ==> (ite(abs(ts) < old(abs(ca.OpenTime)), ca.EOHLC.Open == prices[0] && abs(ca.OpenTime) == abs(ts), ca.EOHLC.Open == old(ca.EOHLC.Open) && abs(ca.OpenTime) == old(abs(ca.OpenTime))))
+//@ ensures #close: (result && old(abs(ca.OpenTime)) != 0 - 62135596800000000000) ==> (ite(abs(ts) > old(abs(ca.CloseTime)), ca.EOHLC.Close == ite(len(prices) == 1, prices[0], prices[3]) && abs(ca.CloseTime) == abs(ts), ca.EOHLC.Close == old(ca.EOHLC.Close) && abs(ca.CloseTime) == old(abs(ca.CloseTime))))
+//@ ensures #frame: ca.EOHLC.Epoch == old(ca.EOHLC.Epoch) && ca.StartTime == old(ca.StartTime) && ca.Duration == old(ca.Duration)
+//@ ensures #others: forallint(p, pattern(at(ca, p)), p != ca ==> at(ca, p) == old(at(ca, p)))
+
+// Order independence for rows with distinct timestamps: feeding two rows in either order to two candles in the same
+// state gives the same open, high, low and close.
+func lemmaOrderIndependent(c1, c2 *Candle, tsA, tsB time.Time, oA, hA, lA, cA, oB, hB, lB, cB float32) {
+	c1.AddCandle(tsA, oA, hA, lA, cA)
+	c1.AddCandle(tsB, oB, hB, lB, cB)
+	c2.AddCandle(tsB, oB, hB, lB, cB)
+	c2.AddCandle(tsA, oA, hA, lA, cA)
+	verifAssert(c1.EOHLC.High == c2.EOHLC.High)   // #high
+	verifAssert(c1.EOHLC.Low == c2.EOHLC.Low)     // #low
+	verifAssert(c1.EOHLC.Open == c2.EOHLC.Open)   // #open
+	verifAssert(c1.EOHLC.Close == c2.EOHLC.Close) // #close
+}
+
+//@ lemma lemmaOrderIndependent
+//@ props C21
+//@ requires c1 != nil && c2 != nil && c1 != c2
+//@ requires c1.EOHLC == c2.EOHLC && abs(c1.OpenTime) == abs(c2.OpenTime) && abs(c1.CloseTime) == abs(c2.CloseTime) && abs(c1.StartTime) == abs(c2.StartTime) && c1.Duration == c2.Duration
+//@ requires abs(tsA) != abs(tsB)
+// both rows and the candle's previous rows are real timestamps (not the zero time, which marks an empty candle), and
+// a non-empty candle has OpenTime <= CloseTime, Low <= High
+//@ requires abs(tsA) != 0 - 62135596800000000000 && abs(tsB) != 0 - 62135596800000000000
+//@ requires abs(c1.OpenTime) != 0 - 62135596800000000000 ==> (abs(c1.OpenTime) <= abs(c1.CloseTime) && c1.EOHLC.Low <= c1.EOHLC.High && abs(c1.OpenTime) != abs(tsA) && abs(c1.OpenTime) != abs(tsB) && abs(c1.CloseTime) != abs(tsA) && abs(c1.CloseTime) != abs(tsB))
+//@ requires lA <= hA && lB <= hB
